@@ -273,7 +273,8 @@ def substArg (path : Bytes) (a : Bytes) : Bytes := joinParts path (splitBraces a
 /-- the path handed to the command, and the directory it runs in -/
 def execPath (dir : Bool) (path : Bytes) : Bytes :=
   if dir then
-    match FuModel.Path.fileName path with
+    -- `path.components().next_back()`: the last component, `..` included
+    match FuModel.Path.lastComponent path with
     | some f => FuModel.Path.join [46] f
     | none => FuModel.Path.join [46] path
   else path
